@@ -6,7 +6,7 @@ pid="$1"; s="$2"; wt=/tmp/seed/$pid; od=$wt/out/$s
 cd $wt || exit 9
 git checkout -- gmlc 2>/dev/null
 res=$od/confirm.log; : > $res
-flags=$(grep -o -- '-fsanitize=[a-z,]*' $od/notes.md | head -1)
+flags=${SEEDFLAGS-$(grep -o -- "-fsanitize=[a-z,]*" $od/notes.md | head -1)}
 build_demo() { g++ -std=c++17 -O1 -g -pthread $flags -I$wt $od/demo.cpp -o $od/demo_bin >>$res 2>&1; }
 run_demo() { timeout 120 $od/demo_bin >>$res 2>&1; echo $?; }
 # without the change
